@@ -7,11 +7,12 @@ Local Open Scope N_scope.
 
 (* The command line is a buffer of exactly n = length cl bytes (n < 2^64: it is a size_t), the option names
    are separate exact-size buffers.  [run_cmdline] runs parse_loop with fuel n + 1 (CmdlineModel.parse_fuel).
+   - the table is arbitrary: names, has_arg flags and handlers (entries with a null handler included);
    - it never ends in UB (in particular no UB oob: every byte read goes through the bounds-checked read)
      and never runs out of fuel: it ends Ok or in the assertion hook (AssertStop);
    - every byte it read lies inside a buffer of the memory (IRead items);
    - every view handed to an option callback (IApply items) is null or (buffer 0, off, len) with off+len <= n. *)
-Theorem C20_cmdline_total_safe : forall (tbl : list (list byte * bool)) (cl : list byte) (null_cl : bool),
+Theorem C20_cmdline_total_safe : forall (tbl : list tentry) (cl : list byte) (null_cl : bool),
   N.of_nat (length cl) < W64 ->
   match run_cmdline tbl cl null_cl with
   | (Ok _, items) => Forall (run_item_ok tbl cl) items
@@ -31,22 +32,32 @@ Theorem C20_cmdline_total_safe_view : forall (m : mem) (cl : view) (opts : list 
 Proof. exact parse_loop_total_safe. Qed.
 Print Assumptions C20_cmdline_total_safe_view.
 
+(* option::apply asserts fn.ptr: an option with a NULL handler (has_fn = false in the table; any table is allowed by
+   C20_cmdline_total_safe) that is named on the command line in the matching shape ends in the assertion hook --
+   an outcome C20 allows -- and never in a call through the null pointer; not named / wrong shape: no stop *)
+Theorem C20_cmdline_null_handler_stops :
+  fst (run_cmdline [([100], false, false)] [100] false) = AssertStop a_option_apply /\
+  fst (run_cmdline [([99], true, false)] [120; 32; 99; 61; 49; 32; 121] false) = AssertStop a_option_apply /\
+  fst (run_cmdline [([99], true, false)] [120; 32; 99; 32; 121] false) = Ok tt.
+Proof. exact null_handler_stops. Qed.
+Print Assumptions C20_cmdline_null_handler_stops.
+
 (* the assertion stop is reachable and is what an unbalanced quote ends in (D32 repaired) *)
 Theorem C20_cmdline_unbalanced_quote_stops :
-  fst (run_cmdline [([97], true)] d32_cl false) = AssertStop a_sub_string.
+  fst (run_cmdline [([97], true, true)] d32_cl false) = AssertStop a_sub_string.
 Proof. exact unbalanced_quote_stops. Qed.
 Print Assumptions C20_cmdline_unbalanced_quote_stops.
 
 (* history (D32): with the bound check of the code before the repair, from + size <= _length computed mod 2^64,
    the same input leaves the buffer *)
 Theorem C20_cmdline_refuted_before_fix :
-  fst (run_cmdline_with (sub_string_with chk_wrapping) [([97], true)] d32_cl false) = UB oob.
+  fst (run_cmdline_with (sub_string_with chk_wrapping) [([97], true, true)] d32_cl false) = UB oob.
 Proof. exact parse_wrapping_check_refuted. Qed.
 Print Assumptions C20_cmdline_refuted_before_fix.
 
 (* composition with the to_number parser (as_number<T> options): whatever view a callback receives during a run,
    to_number<T> on it ends Ok (value or null_opt) and reads only inside buffers *)
-Theorem C20_cmdline_as_number_safe : forall (tbl : list (list byte * bool)) (cl : list byte) (null_cl : bool) (t : ity),
+Theorem C20_cmdline_as_number_safe : forall (tbl : list tentry) (cl : list byte) (null_cl : bool) (t : ity),
   N.of_nat (length cl) < W64 ->
   forall idx v, In (IApply idx v) (snd (run_cmdline tbl cl null_cl)) ->
   exists r reads, to_number (run_mem tbl cl) t v = (Ok r, reads) /\ Forall (in_mem (run_mem tbl cl)) reads.
@@ -55,13 +66,13 @@ Print Assumptions C20_cmdline_as_number_safe.
 
 Example C20_cmdline_ex1 :   (* foo bar=x "baz=a b" z   with options foo, bar=, baz= : three callbacks, 2nd and 3rd inside *)
   let cl := [102;111;111;32;98;97;114;61;120;32;34;98;97;122;61;97;32;98;34;32;122] in
-  let tbl := [([102;111;111], false); ([98;97;114], true); ([98;97;122], true)] in
+  let tbl := [([102;111;111], false, true); ([98;97;114], true, true); ([98;97;122], true, true)] in
   fst (run_cmdline tbl cl false) = Ok tt /\
   filter (fun it => match it with IApply _ _ => true | _ => false end) (snd (run_cmdline tbl cl false))
     = [IApply 0 VNull; IApply 1 (V 0 8 1); IApply 2 (V 0 15 3)].
 Proof. vm_compute. split; reflexivity. Qed.
 
 Example C20_cmdline_ex2 :   (* n=12 with an as_number<unsigned char> option: the callback view is (0, 2, 2), the target becomes 12 *)
-  snd (run_cmdline_targets [([110], true)] [KNum (mkT false 8)] [110; 61; 49; 50] false) = [TNum 12] /\
-  In (IApply 0 (V 0 2 2)) (snd (run_cmdline [([110], true)] [110; 61; 49; 50] false)).
+  snd (run_cmdline_targets [([110], true, true)] [KNum (mkT false 8)] [110; 61; 49; 50] false) = [TNum 12] /\
+  In (IApply 0 (V 0 2 2)) (snd (run_cmdline [([110], true, true)] [110; 61; 49; 50] false)).
 Proof. split; [vm_compute; reflexivity|]. vm_compute. intuition. Qed.
